@@ -37,6 +37,12 @@ def classify(pid, fails, events, res, matchers):
         e = events[eid]
         left = []
         for c in fails[eid]:
+            if c.startswith("binding_"):
+                # model-conformance clause: the implementation took a step the model does not take in
+                # exactly this form.  Recorded, never a property violation by itself.
+                bm = res.notes.setdefault("binding_mismatches", {})
+                bm[c] = bm.get(c, 0) + 1
+                continue
             hit = None
             for k in known:
                 fn = matchers.get(k["matcher"])
